@@ -67,7 +67,12 @@ func newExec(t *testing.T) func([]string) string {
 	return func(a []string) string {
 		switch a[0] {
 		case "enc":
+			// the destination is a reused buffer full of stale bytes: Encode must overwrite every one of
+			// the 16 header bytes (reserved field included), as buildResponse's callers rely on
 			b := make([]byte, header.Len, 64)
+			for i := range b {
+				b[i] = 0xa5
+			}
 			out := header.Encode(b, uint8(hlib.Atoi(a[1])), header.MessageType(hlib.Atoi(a[2])),
 				header.MessageSubType(hlib.Atoi(a[3])), uint32(hlib.Atou(a[4])), hlib.Atou(a[5]))
 			return hlib.Hex(out)
